@@ -354,6 +354,20 @@ package decorator
 // the position state, the node maps, the object maps or the file set (frame, discharged on the body).
 //@ func (r *FileRestorer) updateImports
 //@ modifies allbut(heap(FileRestorer.cursor); heap(FileRestorer.lines); heap(FileRestorer.comments); heap(FileRestorer.cursorAtNewLine); heap(FileRestorer.base); heap(FileRestorer.Restorer); heap(FileRestorer.file); heap(FileRestorer.Name); heap(Restorer.Fset); heap(Restorer.Extras); heap(Restorer.Map); heap(token.FileSet.base); elems(int); elems(*ast.CommentGroup); map(dst.Node, ast.Node); map(ast.Node, dst.Node); heap(FileRestorer.nodeDecl); heap(FileRestorer.nodeData); map(*dst.Object, *ast.Object); map(*ast.Object, *dst.Object); map(*dst.Scope, *ast.Scope); map(*ast.Scope, *dst.Scope); map(*ast.Object, dst.Node); heap(Package.Syntax); heap(Package.Decorator); heap(Package.Dir); heap(Decorator.Filenames); elems(*dst.File); map(*dst.File, string))
+// updateImports, alias precedence (C07): after the two loops that compute effectiveAlias, an alias
+// given to the file restorer beats an alias already in the source (an empty restorer alias removes
+// the source alias; "_" is dropped for a package that is in use). Stated as invariants of the two
+// loops and of the loop that follows them; effectiveAlias is then what findAlias prefers over the
+// resolved name.
+//@ loop 1 invariant from_source_so_far: forall p string :: {has(effectiveAlias, p)} has(effectiveAlias, p) == ($visited[p] && importsFound[p] != "" && !(has(r.Alias, p) && r.Alias[p] == "") && !(importsFound[p] == "_" && has(packagesInUse, p) && packagesInUse[p]))
+//@ loop 1 invariant from_source_values: forall p string :: {effectiveAlias[p]} has(effectiveAlias, p) ==> effectiveAlias[p] == importsFound[p]
+//@ loop 1 invariant source_table_unchanged: forall p string :: {has(importsFound, p)} has(importsFound, p) == entry(has(importsFound, p)) && importsFound[p] == entry(importsFound[p])
+//@ loop 2 invariant restorer_table_unchanged: forall p string :: {has(r.Alias, p)} has(r.Alias, p) == entry(has(r.Alias, p)) && r.Alias[p] == entry(r.Alias[p])
+//@ loop 2 invariant source_table_unchanged: forall p string :: {has(importsFound, p)} has(importsFound, p) == entry(has(importsFound, p)) && importsFound[p] == entry(importsFound[p])
+//@ loop 1 invariant visited_are_keys: forall p string :: $visited[p] ==> has(importsFound, p)
+//@ loop 2 invariant visited_are_keys: forall p string :: $visited[p] ==> has(r.Alias, p)
+//@ loop 2 invariant restorer_alias_wins_so_far: forall p string :: {has(effectiveAlias, p)} ($visited[p] && (has(r.Alias, p) && r.Alias[p] != "" && !(r.Alias[p] == "_" && (has(packagesInUse, p) && packagesInUse[p]))) ==> has(effectiveAlias, p) && effectiveAlias[p] == r.Alias[p]) && (!($visited[p] && (has(r.Alias, p) && r.Alias[p] != "" && !(r.Alias[p] == "_" && (has(packagesInUse, p) && packagesInUse[p])))) ==> (has(effectiveAlias, p) == (has(importsFound, p) && importsFound[p] != "" && !(has(r.Alias, p) && r.Alias[p] == "") && !(importsFound[p] == "_" && (has(packagesInUse, p) && packagesInUse[p])))) && (has(effectiveAlias, p) ==> effectiveAlias[p] == importsFound[p]))
+//@ loop 3 invariant alias_precedence: forall p string :: {has(effectiveAlias, p)} ((has(r.Alias, p) && r.Alias[p] != "" && !(r.Alias[p] == "_" && (has(packagesInUse, p) && packagesInUse[p]))) ==> has(effectiveAlias, p) && effectiveAlias[p] == r.Alias[p]) && (!(has(r.Alias, p) && r.Alias[p] != "" && !(r.Alias[p] == "_" && (has(packagesInUse, p) && packagesInUse[p]))) && (has(importsFound, p) && importsFound[p] != "" && !(has(r.Alias, p) && r.Alias[p] == "") && !(importsFound[p] == "_" && (has(packagesInUse, p) && packagesInUse[p]))) ==> has(effectiveAlias, p) && effectiveAlias[p] == importsFound[p]) && (!(has(r.Alias, p) && r.Alias[p] != "" && !(r.Alias[p] == "_" && (has(packagesInUse, p) && packagesInUse[p]))) && !(has(importsFound, p) && importsFound[p] != "" && !(has(r.Alias, p) && r.Alias[p] == "") && !(importsFound[p] == "_" && (has(packagesInUse, p) && packagesInUse[p]))) ==> !has(effectiveAlias, p))
 
 //@ func (r *FileRestorer) Fprint
 //@ modifies allbut(heap(Package.Syntax); heap(Package.Decorator); heap(Package.Dir); heap(Decorator.Filenames); elems(*dst.File); map(*dst.File, string))
@@ -590,3 +604,4 @@ package decorator
 //@ ensures result_is_new: cap(result) == 0 || !wasAllocated(arr(result))
 //@ loop 1 invariant result_is_new: cap(out) == 0 || (!wasAllocated(arr(out)) && arr(out) >= entry(allocCounter()) && allocated(arr(out)))
 //@ loop 1 invariant old_rows: rowsKeptSinceLoopEntry()
+
